@@ -59,6 +59,12 @@ CHECKS["C20"] = dict(level="model_checking", engine="bfs",
    note="The transition relation is the library function itself (no separate model); histories need not be admissible themselves.",
    design="§2 C20")
 
+CHECKS["C11"] = dict(level="model_checking", engine="bfs",
+   technique="explicit-state enumeration of read histories (state = bytes consumed, action = fill_bytes(n)/next_u32/next_u64) of the real seed streams against a single-read reference; exhaustive dst/binder splittings; scripted byte streams with rejections at every buffer position through the real samplers vs a BigUint transcription of the spec procedure",
+   text="For every XOF (TurboShake128, fixed-key AES in both constructions, HMAC-SHA256-AES128, AES128-CTR) every sequence of 3 reads over a set of read sizes is run on a fresh instance and compared with the corresponding slice of one unsplit read (states/transitions of the read-history graph reported); every split of dst into <=3 parts and of the binder into <=3 updates gives the same stream, into_seed equals the stream prefix; scripted byte streams place rejected and boundary chunks at every position 0..70, all pairs near the refill boundary, runs across the refill boundary and whole-buffer rejections, for all deployed and small fields, through the buffered Prng (hook), into_field_vec, IdpfValue::generate and StandardUniform; over GF(17) all streams of length <=6 over a 6-byte alphabet; Prng::into_new_field continuity against one contiguous walk of the byte stream.",
+   note="The XOF primitives themselves (TurboSHAKE, AES, HMAC) are trusted; the reference is relative (chunking independence), not absolute.",
+   design="§2 C11")
+
 NOT_APPLICABLE = {}
 
 def main():
